@@ -140,8 +140,8 @@ type c12Collector struct {
 	reloads, errors int
 }
 
-func (c *c12Collector) IncReloadCount() { c.mu.Lock(); c.reloads++; c.mu.Unlock() }
-func (c *c12Collector) IncReloadErrors() { c.mu.Lock(); c.errors++; c.mu.Unlock() }
+func (c *c12Collector) IncReloadCount()                     { c.mu.Lock(); c.reloads++; c.mu.Unlock() }
+func (c *c12Collector) IncReloadErrors()                    { c.mu.Lock(); c.errors++; c.mu.Unlock() }
 func (c *c12Collector) ObserveLastReloadTime(time.Duration) {}
 
 // c12Proc is the real ProcessHandlerImpl except for Kill (which would signal real processes).
